@@ -36,6 +36,12 @@ ASSUMPTIONS = [
     "generated float-valued fields use renderings that htslib reproduces verbatim",
 ]
 
+# Which rule set of the model the implementation is compared with (L2): "cur" = the code as it is in /repo;
+# "fix" = the repaired rules (only for trying a candidate patch in a scratch worktree:
+# WHVERIF_REPO=<worktree> WHVERIF_BUILD_ROOT=<dir> WHVERIF_MODEL_RULES=fix ./check C04).
+MODEL_RULES = os.environ.get("WHVERIF_MODEL_RULES", "cur")
+assert MODEL_RULES in ("cur", "fix")
+
 HEADER = """From Coq Require Import ZArith List Bool Arith.
 From WH.Model Require Import VcfRecord.
 Import ListNotations.
@@ -43,9 +49,11 @@ Open Scope Z_scope.
 Record kase := mkCase { k_cf : cfg; k_plan : list (token * list target); k_in : list vrec; k_out : option (list vrec);
   k_distrust : bool; k_hin : header; k_hout : header; k_use : body_use; k_cmd : option token;
   k_predef_f : list token; k_predef_i : list token }.
+Definition the_rules := RULES_rules.
+Definition the_guard := RULES_guard.
 Definition with_out (k : kase) (f : list vrec -> bool) : bool := match k_out k with Some o => f o | None => true end.
 Definition l2 (k : kase) : bool :=
-  match phase_writer (k_cf k) cur_rules (k_plan k) (k_in k), k_out k with
+  match phase_writer (k_cf k) the_rules (k_plan k) (k_in k), k_out k with
   | Ok o', Some o => all2 rec_sim o o'
   | Err EKey, None => true
   | _, _ => false
@@ -65,6 +73,7 @@ Definition l1_het (k : kase) := with_out k (only_het_supported (k_cf k) (annotat
 Definition l1_header (k : kase) := with_out k (fun _ => header_superset (k_hin k) (k_hout k)).
 Definition plan_ok (k : kase) := list_eqb Z.eqb (map fst (k_plan k)) (runs (k_in k)).
 """
+HEADER = HEADER.replace("RULES_", MODEL_RULES + "_")
 CHECKS = {"L2": "l2", "L2_header": "l2_header", "conserves": "l1_conserves", "conserves_mod_end": "l1_conserves_mod_end",
           "frames": "l1_frames", "alleles": "l1_alleles", "het": "l1_het", "header": "l1_header", "plan_ok": "plan_ok"}
 
@@ -228,13 +237,13 @@ def evaluate(ctx, cases, label):
         raise RuntimeError(f"harness bug: plan does not follow the chromosome runs in case {cases[bad_plan[0]]['desc']}")
     # INFO/END resynchronisation by pysam: strict column identity fails, identity modulo END holds
     end_only = [i for i in failing["conserves"] if i not in failing["conserves_mod_end"]]
-    for i in end_only[:3]:
+    for i in end_only[:2]:
         ctx.violation("writer:info-end-resynced",
                       "INFO column changed: pysam's VariantFile.write re-synchronises INFO/END (END=... appended to a record "
                       "with a symbolic ALT that had none, or a redundant END removed): " + cases[i]["desc"], cases[i]["replay"])
     ctx.tally("cases.info_end_resynced", len(end_only))
     for lab, (sig, what) in SIG.items():
-        for i in failing[lab][:3]:
+        for i in failing[lab][:2]:
             ctx.violation(sig, what + ": " + cases[i]["desc"], cases[i]["replay"])
     l2 = sorted(set(failing["L2"]))
     l2h = sorted(set(failing["L2_header"]) - set(i for i, c in enumerate(cases) if c.get("no_header_l2")))
@@ -261,6 +270,7 @@ def make_direct_case(ctx, wd, idx, vt, meta, cfgd, plan, cmdline):
     fout = None if err else vcfabs.parse_vcf(out_path)
     if fout is not None and fout.nul_bytes:
         ctx.tally("cases.output_with_nul_bytes")
+    if fout is not None and fout.nul_bytes and ctx.dist.get("cases.output_with_nul_bytes", 0) <= 2:
         ctx.violation("writer:hp-unset-writes-nul-byte",
                       f"the output VCF contains {fout.nul_bytes} NUL byte(s) and cannot be read back by htslib ('truncated file'): "
                       "`call['HP'] = None` on every sample of a record that had no HP key makes pysam write \\x00 as the "
@@ -520,6 +530,7 @@ def make_cli_case(ctx, wd, idx, sc, reads, vt, opts):
     fout = vcfabs.parse_vcf(out_path)
     if fout.nul_bytes:
         ctx.tally("cases.output_with_nul_bytes")
+    if fout.nul_bytes and ctx.dist.get("cases.output_with_nul_bytes", 0) <= 2:
         ctx.violation("writer:hp-unset-writes-nul-byte",
                       f"the output VCF of `whatshap {' '.join(args)}` contains {fout.nul_bytes} NUL byte(s) and cannot be "
                       "read back by htslib", replay)
@@ -567,8 +578,8 @@ def run_cli(ctx, n):
 
 
 def run(ctx):
-    run_direct(ctx, ctx.n(250, 4000))
-    run_cli(ctx, ctx.n(48, 600))
+    run_direct(ctx, ctx.n(400, 5000))
+    run_cli(ctx, ctx.n(80, 900))
 
 
 def replay(ctx, data):
